@@ -28,3 +28,6 @@ Definition is_ok {A} (r : result A) : bool := match r with Ok _ => true | _ => f
 Lemma bind_ok {A B} (r : result A) (f : A -> result B) b :
   bind r f = Ok b -> exists a, r = Ok a /\ f a = Ok b.
 Proof. destruct r; simpl; intros H; [eauto|discriminate]. Qed.
+
+Lemma Ok_inj {A} (a b : A) : Ok a = Ok b -> a = b.
+Proof. congruence. Qed.
